@@ -103,18 +103,34 @@ theorem aliasing_variant_changes_parent (β : Type) (s : Store β) (hwf : s.WF) 
 Array objects live in a memory by address; the storage the readers read from is its first `np` objects (one per part).
 `np ≤ m.arrays.length` says that these objects exist (a reader of the real code has its parts). -/
 
-/-- The block a reader hands out holds exactly what `eval` says (so `eval_eq_eager` speaks about it), and it is a NEW
-object: its address is the first free one and every object that existed is as it was. -/
-theorem getitem_block_fresh {β : Type} (h : Heap β) (m : Mem β) (np : Nat) (r : Nat) (it : Item) :
-    (getitem m np (h.getD r []) it).map (fun p => p.1.block p.2) = eval h (m.parts np) r it ∧
-    ∀ m' a, getitem m np (h.getD r []) it = some (m', a) →
-      a = m.arrays.length ∧ m'.arrays.take m.arrays.length = m.arrays :=
-  ⟨Lemmas.getitem_block h m np r it, fun m' a hg => Lemmas.getitem_fresh m np _ it m' a hg⟩
+/-- The block handed out by a reader that exists (`hr`: its operation list is at a live address, so `h[r]`, not a
+default) over a storage whose `np` parts exist (`hnp`; then `m.parts np` really has `np` parts) holds exactly what
+`eval` says (so `eval_eq_eager` speaks about it), its address is the first free one — in particular NOT the address
+of a part (`np ≤ a`) —, exactly one object was allocated, and every object that existed, the storage among them, is as
+it was.
+What this is and is not: the "new object" half holds BY CONSTRUCTION of the model's `getitem` (it appends the block to
+the memory, mirroring the unconditional `np.vstack` of traces.py:246-252); the theorem records that construction so
+that `scribble_preserves_returns` can use it, it does not by itself show that the real `__getitem__` allocates. That is
+the job of the correspondence: the harness overwrites, in place, blocks the real readers hand out and compares every
+later evaluation with the model's (`getitemNoCopy` is the variant a non-allocating rewrite would correspond to, and the
+example below tells the two apart). Outside the hypotheses: an address `r ≥ h.length` is no reader (the model's `getD`
+would read an empty operation list), `np > m.arrays.length` is a reader with missing parts — neither exists in the real
+code. -/
+theorem getitem_block_fresh {β : Type} (h : Heap β) (m : Mem β) (np : Nat) (hnp : np ≤ m.arrays.length) (r : Nat)
+    (hr : r < h.length) (it : Item) :
+    (getitem m np h[r] it).map (fun p => p.1.block p.2) = eval h (m.parts np) r it ∧
+    (m.parts np).length = np ∧
+    ∀ m' a, getitem m np h[r] it = some (m', a) →
+      a = m.arrays.length ∧ np ≤ a ∧ m'.arrays.length = a + 1 ∧
+      m'.arrays.take m.arrays.length = m.arrays ∧ m'.parts np = m.parts np :=
+  Lemmas.getitem_block_fresh h m np hnp r hr it
 
 /-- Whatever the caller writes, in place, into a block it was handed (by any reader of the family, for any index
-expression), the storage is as it was, so EVERY reader - the one indexed, its parent, its siblings, readers derived
-later (any heap `h'`) - returns afterwards what it returned before, for every index expression, with or without a
-channel selector. -/
+expression), the storage is as it was: `(scribble m' a f).parts np = m.parts np` is the whole content (it needs `hnp`:
+the block's address `m.arrays.length` lies outside the first `np` objects). The second conjunct is that equation
+rewritten under `eval` / `evalCols` (a corollary by congruence, spelled out because it is the property's wording): EVERY
+reader - the one indexed, its parent, its siblings, readers derived later (any heap `h'`) - returns afterwards what it
+returned before, for every index expression, with or without a channel selector. -/
 theorem scribble_preserves_returns {β : Type} (m : Mem β) (np : Nat) (hnp : np ≤ m.arrays.length)
     (ops : List (Op β)) (it : Item) (m' : Mem β) (a : Nat) (hg : getitem m np ops it = some (m', a))
     (f : List (List β) → List (List β)) :
@@ -124,6 +140,19 @@ theorem scribble_preserves_returns {β : Type} (m : Mem β) (np : Nat) (hnp : np
       ∀ c, evalCols h' ((scribble m' a f).parts np) r' it' c = evalCols h' (m.parts np) r' it' c :=
   ⟨Lemmas.scribble_parts m np hnp ops it m' a hg f, fun h' r' it' => by
     rw [Lemmas.scribble_parts m np hnp ops it m' a hg f]; exact ⟨rfl, fun _ => rfl⟩⟩
+
+/-- the hypotheses of `getitem_block_fresh` on a two-part recording with a derived reader (address 1, one operation):
+the parts exist, the reader exists, the block of `reader[1:3]` is object 2 = `m.arrays.length`, beyond the 2 parts -/
+example :
+    let m : Mem Nat := ⟨[[[1, 2]], [[3, 4], [5, 6]]]⟩
+    let h : Heap Nat := (derive [[]] 0 (.cols (.idx [1, 0]))).1
+    2 ≤ m.arrays.length ∧ h.length = 2 ∧ (m.parts 2).length = 2 ∧
+    (getitem m 2 (h.getD 1 []) (.slice (some 1) (some 3))).map (fun p => (p.2, p.1.arrays.length, p.1.block p.2)) =
+      some (2, 3, [[4, 3], [6, 5]]) ∧
+    eval h (m.parts 2) 1 (.slice (some 1) (some 3)) = some [[4, 3], [6, 5]] ∧
+    -- outside `hnp` (3 parts claimed, 2 objects): `parts` silently has 2 parts
+    (m.parts 3).length = 2 := by
+  refine ⟨by decide, by decide, by decide, by decide, by decide, by decide⟩
 
 /-- a two-part recording: the block of `reader[1:3]` (rows of both parts) is object 2; zeroing it changes nothing the
 parent returns; and the model can express the rewrite that skips `np.vstack` for one part and tells it apart: there
